@@ -99,7 +99,7 @@ func (v *V2) ReadRecordWithValidation(buf []byte, startFileOffset uint32) (paylo
 
 func (v *V2) ReadHeaderWithValidation(buf []byte, startFileOffset uint32) (payloadSize uint32, previousCrc uint32, payloadCrc uint32, err error) {
 	bufSize := uint32(len(buf))
-	if startFileOffset >= bufSize {
+	if startFileOffset >= bufSize || bufSize-startFileOffset < v2PayloadSizeLen {
 		return payloadSize, previousCrc, payloadCrc,
 			errors.Wrapf(ErrOffsetOutOfBounds, "expected payload size: %d. actual buf size: %d ",
 				startFileOffset+v2PayloadSizeLen, bufSize)
@@ -114,10 +114,10 @@ func (v *V2) ReadHeaderWithValidation(buf []byte, startFileOffset uint32) (paylo
 		return payloadSize, previousCrc, payloadCrc, errors.Wrapf(ErrEmptyPayload, "unexpected empty payload")
 	}
 
-	expectSize := payloadSize + v.HeaderSize
+	expectSize := uint64(payloadSize) + uint64(v.HeaderSize)
 	// overflow checking
 	actualBufSize := bufSize - startFileOffset
-	if expectSize > actualBufSize {
+	if expectSize > uint64(actualBufSize) {
 		return payloadSize, previousCrc, payloadCrc,
 			errors.Wrapf(ErrOffsetOutOfBounds, "expected payload size: %d. actual buf size: %d ", expectSize, bufSize)
 	}
